@@ -281,6 +281,11 @@ static void aead_forge(const Args &a) {
             bytes_t &t = what == "c" ? ct2 : what == "a" ? ad2 : what == "n" ? n2 : k2;
             if (idx >= t.size() || mask == 0) fatal("bad mutation %s", mu.c_str());
             t[idx] ^= mask;
+        } else if (what == "cc") {     // the same difference at two ciphertext/tag positions
+            size_t i1 = (size_t)strtoul(f[1].c_str(), 0, 0), i2 = (size_t)strtoul(f[2].c_str(), 0, 0);
+            uint8_t mask = (uint8_t)strtoul(f[3].c_str(), 0, 0);
+            if (i1 >= ct2.size() || i2 >= ct2.size() || i1 == i2 || mask == 0) fatal("bad mutation %s", mu.c_str());
+            ct2[i1] ^= mask; ct2[i2] ^= mask;
         } else if (what == "trunc") { ct2.resize((size_t)strtoul(f[1].c_str(), 0, 0)); }
         else if (what == "ext") { Args t; t.kv["x"] = f[1]; bytes_t e = t.hex("x"); ct2.insert(ct2.end(), e.begin(), e.end()); }
         else if (what == "adext") { Args t; t.kv["x"] = f[1]; bytes_t e = t.hex("x"); ad2.insert(ad2.end(), e.begin(), e.end()); }
